@@ -20,7 +20,9 @@ LEVEL_TEXT = ("Lean theorems: the transcriptions of __and__/__or__/__xor__/__inv
 LEVEL_NOTE = ("Trusted: Lean kernel (+propext, Classical.choice, Quot.sound); bitarray's C operators modelled as zipWith / map; "
               "the transcription is tied to the code by the differential run only.")
 TECHNIQUE = "Lean 4 proof (list induction, Nat bitwise/testBit arithmetic) + exhaustive small-domain correspondence"
-INPLACE = {"iand": "and", "ior": "or", "ixor": "xor", "iandself": "andself", "iorself": "orself", "ixorself": "xorself"}
+INPLACE = {"iand": "and", "ior": "or", "ixor": "xor", "iandself": "andself", "iorself": "orself", "ixorself": "xorself",
+           # reflected forms (non-bitstring left operand, `'0b…' | s`): the per-bit functions are commutative
+           "rand": "and", "ror": "or", "rxor": "xor"}
 
 
 def model_line(line: str) -> str:
@@ -39,6 +41,20 @@ def _right(bits: str, rkind: str):
         return [int(c) for c in bits]
     if rkind == "bitarray":
         return bitarray.bitarray(bits)
+    if rkind == "tuple":
+        return tuple(c == "1" for c in bits)
+    if rkind in ("bytes", "bytearray", "mv", "mv2", "mvr"):
+        assert len(bits) % 8 == 0
+        b = int(bits, 2).to_bytes(len(bits) // 8, "big") if bits else b""
+        if rkind == "bytes":
+            return b
+        if rkind == "bytearray":
+            return bytearray(b)
+        if rkind == "mv":
+            return memoryview(b)
+        if rkind == "mv2":                       # strided view over interleaved junk: not C-contiguous
+            return memoryview(bytes(v for x in b for v in (x, 0xAA)))[::2]
+        return memoryview(bytes(reversed(b)))[::-1]
     raise ValueError(rkind)
 
 
@@ -53,7 +69,11 @@ def _execute(line: str):
     a = unwire(a)
     x = mk(cls, a)
     extra = {}
-    if op in ("and", "or", "xor", "iand", "ior", "ixor"):
+    if op in ("rand", "ror", "rxor"):
+        y = _right(unwire(b), rkind)
+        out = guarded(lambda: {"rand": lambda: y & x, "ror": lambda: y | x, "rxor": lambda: y ^ x}[op](), wire)
+        extra["left_after"] = wire(x)
+    elif op in ("and", "or", "xor", "iand", "ior", "ixor"):
         y = _right(unwire(b), rkind)
         ybefore = wire(y) if hasattr(y, "bin") else None
         import operator
@@ -183,6 +203,20 @@ def _gen(rng, tier: str):
             for op in ("iandself", "iorself", "ixorself"):
                 for cls in MUTABLE:
                     yield SEP.join(["C16", op, wire(a), "-", cls, "obj:" + cls])
+    # reflected forms (the left operand is not a bitstring) and byte-like / buffer right operands
+    for n in range(0, L + 1):
+        for a in allbits(n):
+            for b in (allbits(n) if n <= 3 else rng.sample(allbits(n), 6)):
+                for op in ("rand", "ror", "rxor"):
+                    yield SEP.join(["C16", op, wire(a), wire(b), rng.choice(CLASS_NAMES), rng.choice(["str", "list", "tuple"])])
+    for n in (0, 8, 16, 24):
+        for _ in range(6 if big else 3):
+            for m in (n, n, n, 8 if n != 8 else 16):
+                a, b = rand_bits(rng, n), rand_bits(rng, m)
+                for rk in ("bytes", "bytearray", "mv", "mv2", "mvr"):
+                    for op in ("and", "or", "xor", "rand", "ror", "rxor", "iand", "ior", "ixor"):
+                        cls = rng.choice(MUTABLE if op[0] == "i" else CLASS_NAMES)
+                        yield SEP.join(["C16", op, wire(a), wire(b), cls, rk])
     # in-place forms and unequal lengths
     for n in range(0, 6):
         for m in range(0, 6):
